@@ -116,6 +116,11 @@ def h_pair(env):
 
         from ..spec.pyruntime import resolve_at_runtime
 
+        import zlib
+
+        every = 1 if (env.params["depth"] <= 2 and env.tier == "quick") else (4 if env.tier == "quick" else 16)
+        if zlib.crc32(repr(sorted(env.given.items())).encode()) % every:
+            return  # writing and importing a package tree costs milliseconds: beyond the smallest unit a fixed 1-in-k sample of the witnesses is resolved at run time
         if any(keyword.iskeyword(c) for c in list(current) + list(source)):
             return  # `from . import in` is not Python: package components that are keywords are outside the claim (recorded in DESIGN.md)
         names = ("f",) + tuple(a for a in aliases[:1] if a.isidentifier() and not keyword.iskeyword(a))
